@@ -46,7 +46,7 @@ func runNodes(c caseIn) *nodesOut {
 	out := &nodesOut{Viol: []nodeViol{}}
 	ctx, cancel := context.WithCancel(context.Background())
 	defer cancel()
-	s := &sched{seq: true, main: goid(), keys: c.Keys}
+	s := &sched{seq: true, main: goid(), keys: c.Keys, noWb: c.Locks != ""}
 	var sharedU *memory.Storage
 	var sc types.CacheStorage
 	if c.Shared {
